@@ -530,6 +530,51 @@ def size_algebra(repo, f, ctx, n, ysub):
   return (True, 'group size equals the admissible size on the %d grid points that satisfy the guards' % agree)
 
 
+def stale_loop_values(view, P_, rep, name):
+  """A quantity tested on the way to the push must be computed for the *current* groups: a local that is assigned from
+  the loop variable inside the loop over treatment (control) groups, and that can reach a test without having been
+  re-assigned in the current iteration, carries the value of a previous group."""
+  f, g, rd = view.f, view.g, view.rd
+  n_checked = 0
+  for grp in (P_.T, P_.C):
+    if not isinstance(grp, ast.Name):
+      continue
+    h = view.loop_binding(P_.node, grp.id)
+    if h is None:
+      continue
+    body = set(g.loop_body_nodes(h))
+    for n in body:
+      if n.kind != 'test':
+        continue
+      _, free = rd.expand(n, n.expr)
+      for v, ids in free.items():
+        defs = rd.defs_at(n, v)
+        if len(defs) < 2:
+          continue
+        inner = []
+        for d in defs:
+          if d.node in body and d.how == 'assign' and d.value is not None:
+            dep = {x.id for x in ast.walk(rd.expand(d.node, d.value, keep=(grp.id,))[0]) if isinstance(x, ast.Name)}
+            if grp.id in dep:
+              inner.append(d)
+        if not inner:
+          continue
+        n_checked += 1
+        defnodes = {d.node for d in rd.defs_at(n, v)} | {m for m in g.nodes if any(x.name == v for x in rd.gen.get(m, ()))}
+        start = [m for m, lab in g.succ[h] if lab == 'iter']
+        if not start:
+          continue
+        stale = g.path_avoiding(start[0], lambda m: m is n, lambda m: m in defnodes,
+                                lambda a, b, lab: lab != 'exc' and b is not h) if start[0] not in defnodes else None
+        if start[0] is n:
+          stale = [(n, None)]
+        rep.check(stale is None, 'R1/quantities', '%s: %s is recomputed for every %s before it is tested' % (name, v, grp.id), f.qualname,
+                  'test `%s` reads %s' % (norm(n.expr)[:60], v),
+                  '%s: the test `%s` reads `%s`, which is computed from %s inside the loop but can reach the test without being recomputed in the current iteration: '
+                  'the constraint is then evaluated with the value of a previous group' % (name, norm(n.expr)[:80], v, grp.id), f.loc(n.expr))
+  return n_checked
+
+
 def run_search(repo, rep, name, dwc):
   """Enforcement analysis of one search. Returns kappa -> description for C13."""
   view = search.SearchView(repo, name)
@@ -546,6 +591,7 @@ def run_search(repo, rep, name, dwc):
       rep.undecided('R2/must-pass', '%s push #%d' % (name, pi), 'pushed object is not built by TBRMMDesign(...) in this function', f.loc(P_.push_call))
       continue
     T, C = norm(P_.T), norm(P_.C)
+    stale_loop_values(view, P_, rep, name)
     # loop headers binding the group expressions
     names = {x.id for x in ast.walk(P_.T) if isinstance(x, ast.Name)} | {x.id for x in ast.walk(P_.C) if isinstance(x, ast.Name)}
     headers = [view.loop_binding(P_.node, nm) for nm in names]
@@ -638,7 +684,9 @@ def run_search(repo, rep, name, dwc):
         continue
       # the constraint is consulted somewhere in the search (or the search calls design_within_constraints on other
       # operands) in a form the rule does not understand: undecided; never consulted: violation
-      consulted = [m for m in kappa_mentions(f, kappa) if not (m is not None and m.kind == 'stmt' and isinstance(m.ast, ast.Assign) and isinstance(m.ast.value, ast.Attribute))]
+      near = set(g.loop_body_nodes(outer)) | set(view.doms.get(P_.node, ()))
+      consulted = [m for m in kappa_mentions(f, kappa) if (m is None or m in near)
+                   and not (m is not None and m.kind == 'stmt' and isinstance(m.ast, ast.Assign) and isinstance(m.ast.value, ast.Attribute))]
       dwc_calls = [c_ for n_ in g.nodes for e_ in FuncCtx.node_exprs(n_) for c_ in au.calls_in(e_) if norm(c_.func).endswith('design_within_constraints')]
       if consulted or (dwc_calls and (dwc.get(kappa) is not None or kappa in dwc.get('#incomplete', {}))):
         rep.undecided('R2/must-pass', '%s: %s' % (name, kappa),
@@ -739,11 +787,12 @@ def provenance_sizes(repo, rep, view, P_, kappa):
                                          lambda a, b, lab: one_it(a, b, lab) and accept_edge_ok(n, iv)(a, b, lab)) is not None for y in yields)
       e.must = bool(yields) and not bypass and through
       # with the tolerance given, no other yield is reachable
-      ef = cfgmod.edge_filter_under(sctx.g, facts, extra=cfgmod.no_exc)
+      res_sg = lambda node, e_: sctx.rd.expand(node, e_)[0]
+      ef = cfgmod.edge_filter_under(sctx.g, facts, resolve_at=res_sg, extra=cfgmod.no_exc)
       other_y = [m for m in sctx.g.reachable(sctx.g.entry, ef) if m.kind == 'stmt' and m not in yields
                  and any(isinstance(s, (ast.Yield, ast.YieldFrom)) for s in walk_no_nested(m.ast))]
       e.must = e.must and not other_y
-      e.vacuous = is_vacuous(sctx.g, n, iv, 'geo_ratio_tolerance', None, cfgmod.no_exc)
+      e.vacuous = is_vacuous(sctx.g, n, iv, 'geo_ratio_tolerance', res_sg, cfgmod.no_exc)
       report_enforcement(rep, '_control_group_size_generator', 'geo_ratio_tolerance', e, sg.qualname)
       # the size passed in is len(T)
       break
